@@ -552,7 +552,12 @@ func damageOne(raw []byte, fmtName string, toks []sealedTok, dmg []ctnDamage, ba
 				raw = append([]byte{}, raw...)
 				raw[blocks[k].dataStart-1] ^= 0x04
 			case "cidswap":
+				// the CID of ANOTHER block: the next one that really carries another CID (a duplicate of this block does not)
 				j := (k + 1) % len(blocks)
+				own := raw[blocks[k].cidStart:blocks[k].dataStart]
+				for t := 0; t < len(blocks) && bytes.Equal(raw[blocks[j].cidStart:blocks[j].dataStart], own); t++ {
+					j = (j + 1) % len(blocks)
+				}
 				other := raw[blocks[j].cidStart:blocks[j].dataStart]
 				sec := append(append([]byte{}, other...), raw[blocks[k].dataStart:blocks[k].end]...)
 				buf := make([]byte, 10)
@@ -972,11 +977,10 @@ func init() {
 				rep.violation(json.RawMessage(raw), "written", err.Error(), "writing an undamaged container failed")
 				continue
 			}
-			harmful, clobbered := false, false
+			// what the specification says about the container as it is after ALL the damage (a later relabelling can repair a
+			// label damaged before): harmful = its reader machine does not read it
+			harmful, clobbered := !c.Ok, false
 			for _, d := range c.Dmg {
-				if d.Kind != "benign" {
-					harmful = true
-				}
 				if d.C == "secondwrite" {
 					// another container (other tokens, another size) is serialized with the same writer variant after the
 					// first one; what the first call returned must still be what it returned
